@@ -173,12 +173,16 @@ def run(tier, seed, opens):
                 for order in itertools.permutations(range(n), m):
                     for rep in ('object', 'dict', 'raw'):
                         cases += 1
-                        scen = {'m': m, 'n': n, 'witness_type': wt, 'signing_order': list(order), 'handoff': rep}
+                        # the creator's lock time (0 = the library's default; a block height; a time stamp) is part of what every cosigner signs
+                        lt = (0, 650000, 1700000000)[cases % 3]
+                        scen = {'m': m, 'n': n, 'witness_type': wt, 'signing_order': list(order), 'handoff': rep, 'locktime': lt}
                         try:
                             w0 = wallets[order[0]]
                             u = w0.utxos()[0]
-                            t = w0.transaction_create([(dest, u['value'] - 50000)], [(u['txid'], u['output_n'], u['key_id'], u['value'])], fee=50000)
+                            t = w0.transaction_create([(dest, u['value'] - 50000)], [(u['txid'], u['output_n'], u['key_id'], u['value'])], fee=50000,
+                                                      **({'locktime': lt} if lt else {}))
                             t.sign()
+                            lt_created = t.locktime
                             problems = []
                             too_early = False
                             carried = True
@@ -188,6 +192,8 @@ def run(tier, seed, opens):
                                     problems.append('verifies with only %d of %d signers' % (step, m))
                                 before = [len(i.signatures) for i in t.inputs]
                                 t = handoff(t, wallets[wi], rep)
+                                if t.locktime != lt_created:
+                                    problems.append('lock time %d became %d on import' % (lt_created, t.locktime))
                                 if [len(i.signatures) for i in t.inputs] != before:
                                     carried = False
                                 if t.verify():
